@@ -43,7 +43,8 @@ def build_harness(log):
 # ------------------------------------------------------------------------------------------------
 # TLC
 
-def run_tlc(workdir, module_dir, module, cfg_text, env=None, workers=1, timeout=1800, extra=None, java_opts="-Xss1g"):
+def run_tlc(workdir, module_dir, module, cfg_text, env=None, workers=1, timeout=1800, extra=None, java_opts="-Xss1g", soft=False):
+    """soft: running out of time is not an error - the states explored so far are reported (res["timed_out"])."""
     os.makedirs(workdir, exist_ok=True)
     cfg = os.path.join(workdir, module + ".cfg")
     with open(cfg, "w") as f:
@@ -57,7 +58,7 @@ def run_tlc(workdir, module_dir, module, cfg_text, env=None, workers=1, timeout=
     try:
         rc, _, dt = sh(cmd, cwd=module_dir, env=e, out=out, timeout=timeout + 60)
     except subprocess.TimeoutExpired:
-        raise ToolError("TLC timed out on " + module)
+        raise ToolError("TLC did not stop on " + module)
     text = open(out, errors="replace").read()
     res = {"rc": rc, "wall_s": round(dt, 1), "out": out, "text": text}
     m = re.search(r"(\d+) states generated, (\d+) distinct states found, (\d+) states left on queue", text)
@@ -69,7 +70,12 @@ def run_tlc(workdir, module_dir, module, cfg_text, env=None, workers=1, timeout=
     res["ok"] = ("Model checking completed. No error has been found." in text)
     res["violated"] = re.findall(r"Error: Invariant (\S+) is violated", text) + re.findall(r"Error: Temporal properties were violated", text)
     if rc == 124:
-        raise ToolError("TLC timed out on " + module)
+        if not soft:
+            raise ToolError("TLC timed out on " + module)
+        res["timed_out"] = True
+        m = re.findall(r"Progress\(\d+\) at [^:]+:\d+:\d+: ([\d,]+) states generated.*?, ([\d,]+) distinct states found", text)
+        if m:
+            res["generated"], res["distinct"] = int(m[-1][0].replace(",", "")), int(m[-1][1].replace(",", ""))
     return res
 
 
@@ -236,12 +242,8 @@ def run_mc(pid, tier, workdir, export_depth=None):
         if export_depth is not None:
             consts["ExportDepth"] = export_depth
         cfg = mcconf.cfg_text(consts)
-        limit = 600 if tier == "quick" else 3000
-        try:
-            res = run_tlc(os.path.join(workdir, "mc%d" % i), SPEC, "EngineConf", cfg, workers=TLC_WORKERS, timeout=limit, java_opts="-Xss1g -Xmx16g")
-            timed_out = False
-        except ToolError:
-            raise
+        limit = int(os.environ.get("VERIF_MC_BUDGET_S", "150" if tier == "quick" else "1500"))
+        res = run_tlc(os.path.join(workdir, "mc%d" % i), SPEC, "EngineConf", cfg, workers=TLC_WORKERS, timeout=limit, java_opts="-Xss1g -Xmx16g", soft=True)
         text = res["text"]
         for name, h in tla_json_lines(text, "CEX"):
             summary["cex"].append({"invariant": name, "script": hist_to_script(h, "MC-CEX:%s:%s" % (pid, name))})
@@ -249,12 +251,14 @@ def run_mc(pid, tier, workdir, export_depth=None):
             summary["scripts"].append(hist_to_script(h, "S1:%s:%d" % (pid, len(summary["scripts"]))))
         for m in re.finditer(r'<<"WITNESS", <<(.*)>>>>', text):
             summary["witnesses"].add(m.group(1).replace('"', ""))
-        ok = res["ok"]
+        ok = res["ok"] or (res.get("timed_out", False) and not res["violated"])
+        if res.get("timed_out"):
+            summary["complete"] = False
         if not ok and not summary["cex"]:
             sys.stdout.write(text[-3000:])
             raise ToolError("TLC failed on the EngineMC instance of " + pid)
         summary["instances"].append({"constants": {k: str(v) for k, v in consts.items()}, "distinct": res.get("distinct", 0), "generated": res.get("generated", 0),
-                                     "depth": res.get("depth", 0), "wall_s": res["wall_s"], "ok": ok})
+                                     "depth": res.get("depth", 0), "wall_s": res["wall_s"], "ok": ok, "finished": not res.get("timed_out", False)})
         summary["distinct"] += res.get("distinct", 0)
         summary["generated"] += res.get("generated", 0)
         summary["wall_s"] += res["wall_s"]
@@ -670,6 +674,83 @@ def check_codec(pid, tier, seed):
                     "TLC as the judge of MonC03, Codec.tla and DecoderFraming.tla"], time.time() - t0, violations, {"log": log})
     return 1 if violations else 0
 
+
+# ------------------------------------------------------------------------------------------------
+# AWS IoT builder (C20): AwsBuilder.tla + the real gneiss-mqtt-aws builders
+
+HARNESS_AWS = os.path.join(ROOT, "harness-aws")
+
+def check_aws(pid, tier, seed):
+    t0 = time.time()
+    log = {}
+    workdir = os.path.join(WORK, pid)
+    os.makedirs(workdir, exist_ok=True)
+    rc, out, dt = sh(["cargo", "build", "--release", "--offline", "--quiet"], cwd=HARNESS_AWS, timeout=3000)
+    log["harness_build_s"] = round(dt, 1)
+    if rc != 0:
+        sys.stdout.write(out[-6000:])
+        raise ToolError("the AWS harness does not build against /repo's working tree")
+    known = load_known()
+    cfg = lambda defects: "SPECIFICATION Spec\nCONSTANT Defects = {%s}\nINVARIANT PropertyHolds\nCHECK_DEADLOCK FALSE\n" % ", ".join('"%s"' % d for d in defects)
+    main = run_tlc(os.path.join(workdir, "aws-main"), SPEC, "AwsBuilder", cfg([]), workers=1, timeout=1200)
+    if not main["ok"]:
+        sys.stdout.write(main["text"][-3000:])
+        raise ToolError("AwsBuilder.tla (repaired behaviour) violates C20: the specification and the code must be re-examined")
+    d = run_tlc(os.path.join(workdir, "aws-defect"), SPEC, "AwsBuilder", cfg(["empty-client-id-kept"]), workers=1, timeout=600)
+    found = (not d["ok"]) and "PropertyHolds" in d["text"]
+    if not found:
+        raise ToolError("AwsBuilder.tla no longer exposes the recorded defect 'empty-client-id-kept'")
+    cases = os.path.join(workdir, "cases.jsonl")
+    spec_out = {}
+    with open(cases, "w") as f:
+        for i, (_, c) in enumerate(tla_json_lines(main["text"], "CASE"), 1):
+            f.write(json.dumps(c) + "\n")
+            spec_out[i] = c["out"]
+    trace = os.path.join(workdir, "aws.ndjson")
+    rc, out, dt = sh([os.path.join(HARNESS_AWS, "target", "release", "verif-harness-aws"), "--cases", cases, "--random", str(40000 if tier == "thorough" else 3000), "--seed", str(seed), "--out", trace], cwd=workdir, timeout=3000)
+    if rc != 0:
+        sys.stdout.write(out[-3000:])
+        raise ToolError("verif-harness-aws failed")
+    stats = json.loads(out.strip().splitlines()[-1])
+    verdict, tlc = trace_check(trace, [pid], os.path.join(workdir, "tc"))
+    breaches = list(verdict["errs"][pid])
+    # spec -> code: the builder's output against the output AwsBuilder.tla computes for the same configuration
+    drift, compared, samples = [], 0, []
+    with open(trace) as f:
+        for line in f:
+            e = json.loads(line)
+            if e["ev"] != "Aws" or e.get("src") != "S1":
+                continue
+            want = spec_out.get(e["seq"])
+            if want is None:
+                continue
+            compared += 1
+            for k in ("outUser", "outPass", "outDrain", "outRetries"):
+                if e[k] != want[k]:
+                    drift.append({"case": e["seq"], "field": k, "code": e[k], "specification": want[k]})
+            if (want["outCid"] == [103, 101, 110]) != (e["outCid"] != e["inCid"] or e["inCid"] in ([-1], [])):
+                drift.append({"case": e["seq"], "field": "outCid", "code": e["outCid"]})
+            if len(samples) < 3 and e["seq"] % 1500 == 7:
+                samples.append({k: e[k] for k in ("auth", "inCid", "inMode", "inDrain", "inRetries", "signature", "outCid", "outUser", "outDrain", "outRetries")})
+    for x in drift[:5]:
+        print("DRIFT property=%s the builder's output differs from what AwsBuilder.tla computes: %s" % (pid, json.dumps(x)[:300]))
+    violations, seen = report_codec(pid, breaches, trace, known)
+    coverage = {"states": max(1, main.get("distinct", 0)), "transitions": max(1, main.get("generated", 0)), "traces_validated_against_impl": stats["cases"] + stats["random"],
+                "samples": samples or [{"note": "no sample"}], "exhaustive": True,
+                "model_checking": {"instances": [{"name": "AwsBuilder.tla: every configuration of the alphabet, property evaluated by MonC20 on the specification's output", "distinct": main.get("distinct", 0), "wall_s": main["wall_s"], "ok": True},
+                                                 {"name": "defect switched on: empty-client-id-kept", "found": found, "wall_s": d["wall_s"]}]},
+                "scenario_sources": {"S1_tlc_configurations": stats["cases"], "S2_random": stats["random"]},
+                "outputs_compared_with_spec": compared, "drift": len(drift), "first_drift": drift[:3], "events_validated": verdict["events"], "breaches": len(breaches), "known_findings_seen": sorted(set(seen)),
+                "explanation": ("TLC walked every configuration of AwsBuilder.tla's alphabet (client id absent / empty / given, other connect and client options, protocol version, drain policy and retry limit "
+                                "set or not, mTLS / unsigned / signed custom authentication with raw and pre-encoded signatures), checked the property on the specification's output with MonC20 and found the "
+                                "repaired defect again when it is switched on; the same %d configurations and %d seeded random ones went through the real AwsClientBuilder / AwsCustomAuthOptionsBuilder and "
+                                "MonC20 judged what they produce; %d outputs were compared with the specification's (%d differ)") % (stats["cases"], stats["random"], compared, len(drift))}
+    write_evidence(pid, tier, seed, coverage,
+                   ["the verif accessors of gneiss-mqtt-aws repeat the three-line prelude of build_tokio / build_threaded (user options or defaults) before calling build_final_connect_options / apply_aws_defaults",
+                    "SigV4 signing and TLS set-up are out of scope (they need the network)",
+                    "TLC as the judge of MonC20 and AwsBuilder.tla"], time.time() - t0, violations, {"log": log})
+    return 1 if violations else 0
+
 # ------------------------------------------------------------------------------------------------
 # engine properties
 
@@ -768,7 +849,7 @@ def check_engine_property(pid, tier, seed):
     coverage = {
         "states": max(1, mc["distinct"]), "transitions": max(1, mc["generated"]),
         "traces_validated_against_impl": stats["runs"], "samples": samples,
-        "exhaustive": bool(mc["instances"]) and all(i["ok"] for i in mc["instances"]),
+        "exhaustive": bool(mc["instances"]) and all(i["ok"] and i["finished"] for i in mc["instances"]),
         "model_checking": {"instances": mc["instances"], "witnesses": mc["witnesses"], "counterexamples": len(mc["cex"]), "note": mc_note,
                            "scripts_exported": len(mc["scripts"]), "scripts_replayed": len(s1) + len(cex)},
         "events_validated": details["events"],
@@ -839,6 +920,8 @@ def main(argv):
             return check_backoff(pid, tier, seed)
         if pid == "C03":
             return check_codec(pid, tier, seed)
+        if pid == "C20":
+            return check_aws(pid, tier, seed)
         print("no check registered for", pid)
         return 2
     except ToolError as e:
